@@ -8,11 +8,10 @@ CONSTANTS FailFastOn = "anyerr"
  BufsMC = {1}
  MaxN = 2
  KindsMC = {"ok", "err", "ctx"}
- FailFastMC = {TRUE, FALSE}
+ FailFastMC = {TRUE}
  WaitMC = {TRUE, FALSE}
  MaxPanics = 0
  RootMC = {}
  Reduce = FALSE
 PROPERTIES JoinLeadsToClose ClosedLeadsToNoGoroutine WaitingCancelReturns
-VIEW View
 CHECK_DEADLOCK FALSE
